@@ -5,6 +5,7 @@ use serde_json::{json, Value};
 
 pub mod names;
 pub mod patterns;
+pub mod summaries;
 pub mod versions;
 
 pub fn driver_salt(driver: &str) -> u64 {
@@ -15,14 +16,45 @@ pub struct Gen {
     driver: String,
     #[allow(dead_code)]
     args: Vec<String>,
+    cases: Option<std::io::Lines<std::io::BufReader<std::fs::File>>>,
+    streams: Option<summaries::StreamPlan>,
 }
 
 impl Gen {
     pub fn new(driver: &str, args: &[String]) -> Gen {
-        Gen { driver: driver.to_string(), args: args.to_vec() }
+        // "@cases <file>": inputs come from cases emitted by TLC (spec -> impl -> spec)
+        let cases = if driver == "@cases" {
+            use std::io::BufRead;
+            Some(std::io::BufReader::new(std::fs::File::open(&args[0]).expect("cases file")).lines())
+        } else {
+            None
+        };
+        Gen { driver: driver.to_string(), args: args.to_vec(), cases, streams: None }
     }
     pub fn next(&mut self, rng: &mut Rng, i: u64) -> Option<(String, Value)> {
         match self.driver.as_str() {
+            "@cases" => {
+                let line = self.cases.as_mut().unwrap().next()?.ok()?;
+                let v: Value = serde_json::from_str(&line).ok()?;
+                Some((v["op"].as_str().unwrap_or("").to_string(), v["in"].clone()))
+            }
+            "sumhist" => {
+                let vals = summaries::entry_values(rng);
+                Some(("sumhist".into(), json!({"steps": summaries::history(rng, &vals)})))
+            }
+            "sumparse" => {
+                let t = if rng.chance(1, 4) { summaries::canonical_text(&summaries::entry_values(rng)) } else { summaries::faulty_text(rng) };
+                Some(("sumparse".into(), json!({"text": codes(&t)})))
+            }
+            "stream" => {
+                if self.streams.is_none() {
+                    let want: usize = self.args.get(0).and_then(|a| a.parse().ok()).unwrap_or(1000);
+                    let pairs = self.args.get(1).map(|a| a == "pairs").unwrap_or(false);
+                    self.streams = Some(summaries::StreamPlan::new(rng, want, pairs));
+                }
+                let input = self.streams.as_mut().unwrap().next()?;
+                Some(("stream".into(), input))
+            }
             "vercmp" => {
                 let (a, b) = versions::pair(rng, i);
                 Some(("vercmp".into(), json!({"a": codes(&a), "b": codes(&b)})))
